@@ -326,7 +326,7 @@ def classify(rule, detail, plan):
 
 def classify_reference(plan):
     """The reference of this comparison is the interpreter.  Where the interpreter itself leaves Appendix D on this plan in
-    one of the ways recorded under C01 (history of an active parent, shared history memory, selection after a preempted
+    one of the ways recorded under C01 (history of an active parent, selection after a preempted
     transition, content order), a difference to the generated machine cannot be held against the transpiler."""
     import refine
     p1 = json.loads(json.dumps(plan))
